@@ -689,6 +689,14 @@ def _aligned_rvalue(f, r, cursor, unit):
     return False
 
 
+def t13(ctx, rid):
+    """closing / switching the active blob must not change answers: the group filter a closed blob is merged into stays a
+    superset of it (C10.B9 range merge, C10.B6 off-load guard)"""
+    import props.c10 as c10
+    c10.b9(ctx, rid)
+    c10.b6(ctx, rid)
+
+
 RULES = [
     Rule('C04.T1', 'every value stored into the active-blob slot is certified to have an in-memory index (open_new, load_index ok, or popped after load_index ok on the last element)', t1, 7),
     Rule('C04.T2', 'every index push is dominated by an InMemory-establishing event, in the body or in every caller, or acts on the active-blob slot', t2, 3),
@@ -701,5 +709,6 @@ RULES = [
     Rule('C04.T10', 'keys are ordered through the key type, never as raw byte strings, in the index code', t10, 4),
     Rule('C04.T11', 'the point lookup consults every candidate closed blob before it returns Ok (C02.U6 instances)', t11, 1),
     Rule('C04.T12', 'cursors over the on-disk leaf region move by whole record headers (alignment domain)', t12, 4),
+    Rule('C04.T13', 'the filters a closed blob is merged into stay a superset of it; buffers are off-loaded only from on-disk indexes (C10.B9/B6 instances)', t13, 3),
     Rule('C04.T6', 'the closed-blob vector (child ids are positions) is never shrunk', t6, 4),
 ]
